@@ -15,6 +15,7 @@ type WorkSpace struct {
 	state   engine.WorkSpaceState
 	using   bool
 	rootDir string
+	epoch   uint64 // bumped under stateLock by stop/remove/delete: earlier plot/mine requests are void
 }
 
 // NewWorkSpace loads MassDB from given rootDir with PubKey&BitLength,
